@@ -32,7 +32,7 @@ type Case struct {
 func ipt(x, y int64) [2]model.F { return [2]model.F{model.Of(float64(x)), model.Of(float64(y))} }
 
 func genInt(t *rapid.T) Case {
-	class := rapid.SampledFrom([]string{"touch-endpoints", "T-junction", "collinear-overlap", "collinear-touch", "collinear-disjoint", "parallel", "crossing", "near-parallel", "random-small", "random-big", "far"}).Draw(t, "class")
+	class := rapid.SampledFrom([]string{"touch-endpoints", "T-junction", "collinear-overlap", "collinear-touch", "collinear-disjoint", "parallel", "crossing", "near-parallel", "random-small", "random-big", "far", "axis-long-crossing", "long-crossing"}).Draw(t, "class")
 	k := uint(rapid.IntRange(1, 19).Draw(t, "k"))
 	lim := int64(1) << k
 	rp := func(l string) [2]int64 {
@@ -95,6 +95,27 @@ func genInt(t *rapid.T) Case {
 		u, v := dir("u", 32), dir("v", 32)
 		a, b = add(o, -rapid.Int64Range(1, 5).Draw(t, "s1"), u), add(o, rapid.Int64Range(1, 5).Draw(t, "s2"), u)
 		c, d = add(o, -rapid.Int64Range(1, 5).Draw(t, "s3"), v), add(o, rapid.Int64Range(1, 5).Draw(t, "s4"), v)
+	case "axis-long-crossing", "long-crossing":
+		lim = int64(1) << uint(rapid.SampledFrom([]int{20, 20, 19, 18, 16, 12}).Draw(t, "klong"))
+		// a long horizontal (or vertical) segment properly crossed by a long oblique one,
+		// with large coordinates; "long-crossing" tilts the first segment as well
+		x0, x1 := rapid.Int64Range(-lim, lim-2).Draw(t, "x0"), int64(0)
+		x1 = rapid.Int64Range(x0+2, lim).Draw(t, "x1")
+		y := rapid.Int64Range(-lim, lim).Draw(t, "y")
+		a, b = [2]int64{x0, y}, [2]int64{x1, y}
+		c = [2]int64{rapid.Int64Range(x0+1, x1-1).Draw(t, "cx"), y - rapid.Int64Range(1, lim).Draw(t, "h1")}
+		d = [2]int64{rapid.Int64Range(x0+1, x1-1).Draw(t, "dx"), y + rapid.Int64Range(1, lim).Draw(t, "h2")}
+		if class == "long-crossing" {
+			// tilt ab a little around its midpoint region: still crossing when c,d are far above/below
+			t1 := rapid.Int64Range(-3, 3).Draw(t, "tilt")
+			a[1] -= t1
+			b[1] += t1
+			c[1] -= 4
+			d[1] += 4
+		}
+		if rapid.Bool().Draw(t, "vertical") {
+			a, b, c, d = [2]int64{a[1], a[0]}, [2]int64{b[1], b[0]}, [2]int64{c[1], c[0]}, [2]int64{d[1], d[0]}
+		}
 	case "near-parallel":
 		a = rp("a")
 		u := dir("u", 8)
